@@ -70,11 +70,13 @@ static char *unhex(const char *h)
     return out;
 }
 
+static FILE *dump_to;
+#define OUTF (dump_to ? dump_to : stdout)
 static void puthex(const char *s)
 {
-    if (!s) { fputs("-", stdout); return; }
-    if (!*s) { fputs("=", stdout); return; }
-    for (; *s; s++) printf("%02x", (unsigned char)*s);
+    if (!s) { fputs("-", OUTF); return; }
+    if (!*s) { fputs("=", OUTF); return; }
+    for (; *s; s++) fprintf(OUTF, "%02x", (unsigned char)*s);
 }
 
 /* ------------------------------------------------------------------ hooks */
@@ -136,52 +138,143 @@ static void dump_obj(struct conf_node_object *obj, int depth)
     struct set_node *it;
     for (it = set_first(&obj->contents); it; it = set_next(it)) {
         struct conf_node_base *b = set_node_data(it);
-        printf("N %d %d %d %d ", depth, (int)b->type, (int)b->present, (int)b->specified);
+        fprintf(OUTF, "N %d %d %d %d ", depth, (int)b->type, (int)b->present, (int)b->specified);
         puthex(b->name);
         switch (b->type) {
         case CONF_STRING: {
             struct conf_node_string *s = (struct conf_node_string *)b;
-            printf(" %d ", (int)s->subtype);
+            fprintf(OUTF, " %d ", (int)s->subtype);
             puthex(s->value);
             if (b->specified) {
-                fputs(" ", stdout);
+                fputs(" ", OUTF);
                 switch (s->subtype) {
                 case CONF_STRING_PLAIN: puthex(s->parsed.p_string); break;
-                case CONF_STRING_BOOLEAN: printf("%d", s->parsed.p_boolean); break;
-                case CONF_STRING_INTEGER: printf("%d", s->parsed.p_integer); break;
-                case CONF_STRING_FLOAT: printf("%.17g", s->parsed.p_double); break;
-                case CONF_STRING_INTERVAL: printf("%u", s->parsed.p_interval); break;
-                case CONF_STRING_VOLUME: printf("%u", s->parsed.p_volume); break;
+                case CONF_STRING_BOOLEAN: fprintf(OUTF, "%d", s->parsed.p_boolean); break;
+                case CONF_STRING_INTEGER: fprintf(OUTF, "%d", s->parsed.p_integer); break;
+                case CONF_STRING_FLOAT: fprintf(OUTF, "%.17g", s->parsed.p_double); break;
+                case CONF_STRING_INTERVAL: fprintf(OUTF, "%u", s->parsed.p_interval); break;
+                case CONF_STRING_VOLUME: fprintf(OUTF, "%u", s->parsed.p_volume); break;
                 }
             }
-            fputs("\n", stdout);
+            fputs("\n", OUTF);
             break;
         }
         case CONF_INADDR: {
             struct conf_node_inaddr *a = (struct conf_node_inaddr *)b;
-            fputs(" ", stdout); puthex(a->hostname); fputs(" ", stdout); puthex(a->service); fputs("\n", stdout);
+            fputs(" ", OUTF); puthex(a->hostname); fputs(" ", OUTF); puthex(a->service); fputs("\n", OUTF);
             break;
         }
         case CONF_STRING_LIST: {
             struct conf_node_string_list *l = (struct conf_node_string_list *)b;
             unsigned ii;
-            printf(" %u", l->value.used);
-            for (ii = 0; ii < l->value.used; ii++) { fputs(" ", stdout); puthex(l->value.vec[ii]); }
-            fputs("\n", stdout);
+            fprintf(OUTF, " %u", l->value.used);
+            for (ii = 0; ii < l->value.used; ii++) { fputs(" ", OUTF); puthex(l->value.vec[ii]); }
+            fputs("\n", OUTF);
             break;
         }
         case CONF_OBJECT: {
             struct conf_node_object *o = (struct conf_node_object *)b;
-            printf(" %u\n", set_size(&o->contents));
-            if (b->parent != obj) printf("X parent pointer of this object is wrong\n");
+            fprintf(OUTF, " %u\n", set_size(&o->contents));
+            if (b->parent != obj) fprintf(OUTF, "X parent pointer of this object is wrong\n");
             dump_obj(o, depth + 1);
             break;
         }
         }
-        if (b->parent != obj) printf("X parent pointer wrong\n");
+        if (b->parent != obj) fprintf(OUTF, "X parent pointer wrong\n");
     }
 }
 
+#ifdef CONFH_FUZZ
+/* libFuzzer target for C14: prior state = registrations + one of the built-in
+ * valid files; candidate = fuzz bytes.  A rejected candidate must leave the
+ * canonical dump unchanged and the hook log empty. */
+#include <sys/stat.h>
+static const char *PRIORS[] = {
+    "ra { s1 one; s2 \"two\"; i1 0x10; b1 off; iv 1h; vol 2M; fl 2.5; l1 (p, q, r); l2 (z); ad \"::2\" 8080; sub { s3 x; un 1 } ; extra (1); };\n"
+    "top level;\nrb { s1 bee; obj { k v }; };\nstray { a b; c (d); };\n",
+    "ra { s1 \"\\x41\\n\"; l1 (); ad host svc; }\nrb { }\n",
+    "\n",
+    "core { modules ( iauth_class, iauth_xquery ); }\nlogs { \"*.>=info\" \"file:x.log\" }\niauth_class { r1 { class a; address \"10.0.0.0/8\" }; }\n",
+};
+static char *dump_string(void)
+{
+    char *buf = NULL;
+    size_t len = 0;
+    dump_to = open_memstream(&buf, &len);
+    dump_obj(conf_get_root(), 0);
+    fclose(dump_to);
+    dump_to = NULL;
+    return buf;
+}
+int LLVMFuzzerTestOneInput(const uint8_t *data, size_t size)
+{
+    static int inited;
+    static char dir[400], prior_path[480], cand_path[480];
+    char *d0, *d1;
+    FILE *f;
+    int rc;
+    if (!inited) {
+        const char *base = getenv("VERIF_INPROC_DIR");
+        struct conf_node_object *ra, *sub, *rb;
+        static struct string_vector sv;
+        snprintf(dir, sizeof(dir), "%s/conffuzz-%d", base ? base : "/verif/build/tmp", (int)getpid());
+        mkdir(dir, 0755);
+        snprintf(prior_path, sizeof(prior_path), "%s/prior.conf", dir);
+        snprintf(cand_path, sizeof(cand_path), "%s/cand.conf", dir);
+        ctype_init();
+        ra = find_obj("7261", 1);
+        sub = find_obj("7261/737562", 1);
+        rb = find_obj("7262", 1);
+        conf_register_string(ra, CONF_STRING_PLAIN, "s1", "dflt")->base.hook = the_hook;
+        conf_register_string(ra, CONF_STRING_PLAIN, "s2", NULL)->base.hook = the_hook;
+        conf_register_string(ra, CONF_STRING_INTEGER, "i1", "7")->base.hook = the_hook;
+        conf_register_string(ra, CONF_STRING_BOOLEAN, "b1", "true")->base.hook = the_hook;
+        conf_register_string(ra, CONF_STRING_INTERVAL, "iv", "30")->base.hook = the_hook;
+        conf_register_string(ra, CONF_STRING_VOLUME, "vol", "1K")->base.hook = the_hook;
+        conf_register_string(ra, CONF_STRING_FLOAT, "fl", "1.5")->base.hook = the_hook;
+        string_vector_append(&sv, strdup("x"));
+        string_vector_append(&sv, strdup("y"));
+        conf_register_string_list_sv(ra, "l1", &sv)->base.hook = the_hook;
+        conf_register_inaddr(ra, "ad", "::1", "80")->base.hook = the_hook;
+        conf_register_string(sub, CONF_STRING_PLAIN, "s3", "deep")->base.hook = the_hook;
+        conf_register_string(rb, CONF_STRING_PLAIN, "s1", "other")->base.hook = the_hook;
+        conf_register_string(NULL, CONF_STRING_PLAIN, "top", "t")->base.hook = the_hook;
+        inited = 1;
+    }
+    if (size < 1)
+        return 0;
+    f = fopen(prior_path, "w");
+    fputs(PRIORS[data[0] % (sizeof(PRIORS) / sizeof(PRIORS[0]))], f);
+    fclose(f);
+    if (conf_read(prior_path) != 0) {
+        fprintf(stderr, "ORACLE-FAIL: built-in prior file rejected\n");
+        __builtin_trap();
+    }
+    f = fopen(cand_path, "w");
+    fwrite(data + 1, 1, size - 1, f);
+    fclose(f);
+    d0 = dump_string();
+    hooklen = 0;
+    loglen = 0;
+    rc = conf_read(cand_path);
+    if (rc != 0) {
+        d1 = dump_string();
+        if (strcmp(d0, d1)) {
+            fprintf(stderr, "ORACLE-FAIL: load failed (%d) but the live configuration changed\n--- before\n%s--- after\n%s", rc, d0, d1);
+            __builtin_trap();
+        }
+        if (hooklen) {
+            fprintf(stderr, "ORACLE-FAIL: load failed (%d) but change hooks ran: %.*s\n", rc, (int)hooklen, hookbuf);
+            __builtin_trap();
+        }
+        free(d1);
+    }
+    free(d0);
+    hooklen = 0;
+    loglen = 0;
+    return 0;
+}
+#else
 int main(void)
 {
     static char line[1 << 20];
@@ -263,3 +356,4 @@ int main(void)
     call_exit_funcs();
     return 0;
 }
+#endif
